@@ -19,6 +19,11 @@
      the template scanner excellent.NewXScanner (property C12): templates are given as its token list.
    The legacy ANTLR parser is re-implemented in LegacySyntax.v (parse1).
 
+   visitor.go precedenceOf / asOperand (added by the fix "legacy expression migration parenthesizes operands
+   that would regroup"): an already migrated operand is re-parsed with the Excellent3 parser (model: parse3
+   of LegacySyntax.v) and parenthesized when its outermost operator binds looser than its position needs.
+   The precedence constants come from gen/LegacyTable.v (const block of visitor.go).
+
    migrateFunctionCall's error result is DROPPED by VisitFunctionCall (`rewritten, _ := ...`): a call with
    too few / too many arguments migrates to the empty string.  The model does the same. *)
 From Coq Require Import List NArith ZArith Bool.
@@ -186,6 +191,38 @@ Definition sprintf (f : text) (args : list text) : text :=
   fmt_run (fmt_pieces (S (length f)) f) args O false.
 
 (* ---------------------------------------------------------------------------------------------- *)
+(* visitor.go: precedenceOf, asOperand *)
+
+(* the type switch of precedenceOf on the root of the parsed expression *)
+Definition go_prec_of_op (o : binop) : nat :=
+  match o with
+  | OAmp => prec_concatenation
+  | OEq | ONeq => prec_equality
+  | OLte | OLt | OGte | OGt => prec_comparison
+  | OAdd | OSub => prec_addition
+  | OMul | ODiv => prec_multiplication
+  | OExp => prec_exponent
+  end.
+
+Definition go_prec_of_tree (t : e3) : nat :=
+  match t with
+  | X3Bin o _ _ => go_prec_of_op o
+  | X3Neg _ => prec_negation
+  | _ => prec_atom
+  end.
+
+(* precedenceOf: a text that does not parse counts as an atom *)
+Definition precedence_of (expression : text) : nat :=
+  match parse3 expression with
+  | Some t => go_prec_of_tree t
+  | None => prec_atom
+  end.
+
+(* asOperand *)
+Definition as_operand (expression : text) (min_precedence : nat) : text :=
+  if Nat.ltb (precedence_of expression) min_precedence then 40 :: expression ++ [41] else expression.
+
+(* ---------------------------------------------------------------------------------------------- *)
 (* functions.go *)
 
 Definition t_pct_s : text := [37; 115].
@@ -201,7 +238,7 @@ Definition render_call (name : text) (params : list text) : text :=
 Definition param_decremented (p : text) : text :=
   match atoi p with
   | Some z => itoa (int64_pred z)
-  | None => p ++ t_minus_one
+  | None => as_operand p prec_addition ++ t_minus_one
   end.
 
 (* paramBySpaces *)
@@ -229,6 +266,20 @@ Fixpoint migrate_params (pms : list pmig) (old defaults : list text) : list text
       end
   end.
 
+(* asOperatorTemplate: params[i] for i < len(precedences) go through asOperand *)
+Fixpoint operands_of (params : list text) (precs : list nat) : list text :=
+  match params, precs with
+  | p :: ps, q :: qs => as_operand p q :: operands_of ps qs
+  | _, _ => params
+  end.
+
+(* asJoin: the first operand at the operator's precedence, the others one above (left associative) *)
+Definition join_operands (params : list text) (prec : nat) : list text :=
+  match params with
+  | [] => []
+  | p :: ps => as_operand p prec :: map (fun x => as_operand x (S prec)) ps
+  end.
+
 Fixpoint lookup {A} (k : text) (l : list (text * A)) : option A :=
   match l with
   | [] => None
@@ -241,10 +292,10 @@ Definition migrate_call_with (tbl : list (text * cmig)) (fname : text) (params :
   | None => render_call fname params
   | Some AsIs => render_call fname params
   | Some (Rename n) => render_call n params
-  | Some (Template f) =>
+  | Some (Template f precs) =>
       if Nat.ltb (length params) (count_sub t_pct_s f + count_sub t_pct_v f) then []
-      else sprintf f params
-  | Some (Join sep) => join sep params
+      else sprintf f (operands_of params precs)
+  | Some (Join sep prec) => join sep (join_operands params prec)
   | Some (Params n defaults pms) =>
       if Nat.ltb (length pms) (length params) then []
       else render_call n (migrate_params pms params defaults)
@@ -310,12 +361,13 @@ Section Visitor.
     let op : text := if minus then [45] else [43] in
     let t1 := infer_type arg1 in
     let t2 := infer_type arg2 in
+    let negated := as_operand arg2 prec_negation in
     if text_eqb t1 t_number && text_eqb t2 t_number then
-      arg1 ++ 32 :: op ++ 32 :: arg2
+      as_operand arg1 prec_addition ++ 32 :: op ++ 32 :: as_operand arg2 (S prec_addition)
     else if text_eqb t1 t_datetime && text_eqb t2 t_number then
-      t_dtadd_open ++ arg1 ++ (if minus then t_comma_minus else comma_space) ++ arg2 ++ t_D_close
+      t_dtadd_open ++ arg1 ++ (if minus then t_comma_minus ++ negated else comma_space ++ arg2) ++ t_D_close
     else if text_eqb t1 t_date && text_eqb t2 t_number then
-      let inner := t_dtadd_open ++ arg1 ++ (if minus then t_comma_minus else comma_space) ++ arg2 ++ t_D_close in
+      let inner := t_dtadd_open ++ arg1 ++ (if minus then t_comma_minus ++ negated else comma_space ++ arg2) ++ t_D_close in
       if raw_dates then inner else wrap inner t_format_date
     else if text_eqb t1 t_datetime && text_eqb t2 t_time then
       let as_minutes := t_format_time_open ++ arg2 ++ t_tt_times_60_plus ++ t_format_time_open ++ arg2 ++ t_m_close in
@@ -326,7 +378,7 @@ Section Visitor.
     else if negb minus then
       t_legacy_add_open ++ arg1 ++ comma_space ++ arg2 ++ [41]
     else
-      t_legacy_add_open ++ arg1 ++ t_comma_minus ++ arg2 ++ [41].
+      t_legacy_add_open ++ arg1 ++ t_comma_minus ++ negated ++ [41].
 
   (* legacyVisitor: one clause per Visit* method *)
   Fixpoint visit (e : e1) : text :=
@@ -337,12 +389,13 @@ Section Visitor.
     | E1False => t_false                                      (* VisitFalse *)
     | E1Ref n => ctxmap n                                     (* VisitContextReference *)
     | E1Paren x => 40 :: visit x ++ [41]                      (* VisitParentheses *)
-    | E1Neg x => 45 :: visit x                                (* VisitNegation *)
+    | E1Neg x => 45 :: as_operand (visit x) prec_negation     (* VisitNegation *)
     | E1Bin o a b =>
         match o with
         | OAdd => visit_additive false (visit a) (visit b)
         | OSub => visit_additive true (visit a) (visit b)
-        | _ => visit a ++ 32 :: op_text o ++ 32 :: visit b    (* exponent, * /, comparison, equality, & *)
+        | _ =>                                                (* exponent, * /, comparison, equality, & *)
+            as_operand (visit a) (go_prec_of_op o) ++ 32 :: op_text o ++ 32 :: as_operand (visit b) (S (go_prec_of_op o))
         end
     | E1Call f args => migrate_call (lower f) (map visit args)  (* VisitFunctionCall + VisitFunctionParameters *)
     end.
